@@ -7,7 +7,7 @@
 use crate::dom::IParts;
 use crate::engine::{cut, CaseResult, Ctx, Engine, RandomSpec};
 use crate::irb::*;
-use crate::irinterp::{run_sub, Limits, Observer, State, Stop};
+use crate::irinterp::{run_sub, CallAction, Limits, Observer, State, Stop};
 use crate::refsem as rs;
 use crate::tape::{fnv, Tape};
 use cwe_checker_lib::abstract_domain::{AbstractIdentifier, AbstractLocation, AbstractMemoryLocation, DataDomain, IntervalDomain};
@@ -367,8 +367,148 @@ pub fn decode(t: &mut Tape) -> Case {
         blocks[k + 3].term.defs.insert(0, access);
         g.feat("two-constants-join-then-access");
     }
+    // Calls: extern functions (allocation, pure, pointer-taking, completely unknown) and a small internal
+    // callee `g` that reads and writes through its pointer parameters, uses the red zone and the caller's
+    // stack arguments and returns with a balanced stack (callee-saved registers are never written by `g`).
+    let mut externs = vec![];
+    let mut subs = vec![];
+    if g.t.prob(110) {
+        use BinOpType::*;
+        g.feat("calls");
+        let e_malloc = tid("ext_malloc", "UNKNOWN");
+        let e_rand = tid("ext_rand", "UNKNOWN");
+        let e_memfn = tid("ext_memfn", "UNKNOWN");
+        let e_unk = tid("ext_unk", "UNKNOWN");
+        externs = vec![
+            extern_symbol(e_malloc.clone(), "malloc", &["RDI"], false),
+            extern_symbol(e_rand.clone(), "rand", &[], false),
+            extern_symbol(e_memfn.clone(), "memfn", &["RDI", "RSI"], false),
+            {
+                let mut u = extern_symbol(e_unk.clone(), "unk", &[], false);
+                u.return_values = vec![];
+                u
+            },
+        ];
+        let gbase = 0x2000u64;
+        let with_callee = g.t.prob(170);
+        if with_callee {
+            g.feat("internal-callee");
+            let gn = 1 + g.t.below(3);
+            let cs = ["RAX", "RCX", "RDX", "RSI", "RDI"]; // caller-saved: the only registers `g` writes
+            let mut gblocks = vec![];
+            for bi in 0..gn {
+                let bb = gbase + 0x40 * bi as u64;
+                let mut defs = vec![];
+                let n = g.t.below(6);
+                for i in 0..n {
+                    let t0 = instr_tid(bb + i as u64, 0);
+                    let d = var(cs[g.t.below(cs.len())], 8);
+                    let any = |g: &mut G| if g.t.prob(200) { var(["RAX", "RCX", "RDX", "RSI", "RDI"][g.t.below(5)], 8) } else { g.reg() };
+                    match g.t.below(12) {
+                        0 | 1 => {
+                            let c = g.small();
+                            defs.push(assign(t0, &d, econst(c, 8)));
+                        }
+                        2 | 3 => {
+                            // write through a pointer parameter
+                            let p = var(if g.t.flag() { "RDI" } else { "RSI" }, 8);
+                            let off = *g.t.choose(&[0i128, 0, 8, -8, 16]);
+                            let a = if off == 0 { evar(&p) } else { ebin(IntAdd, evar(&p), econst(off, 8)) };
+                            let v = if g.t.flag() { econst(g.small(), 8) } else { evar(&any(&mut g)) };
+                            defs.push(store(t0, a, v));
+                        }
+                        4 | 5 => {
+                            let p = var(if g.t.flag() { "RDI" } else { "RSI" }, 8);
+                            let off = *g.t.choose(&[0i128, 0, 8, -8, 16]);
+                            let a = if off == 0 { evar(&p) } else { ebin(IntAdd, evar(&p), econst(off, 8)) };
+                            defs.push(load(t0, &d, a));
+                        }
+                        6 => {
+                            // red zone / caller's stack arguments
+                            let off = *g.t.choose(&[-8i128, -16, 8, 16, 24]);
+                            let a = ebin(IntAdd, evar(&var("RSP", 8)), econst(off, 8));
+                            if off < 0 && g.t.flag() {
+                                defs.push(store(t0, a, evar(&any(&mut g))));
+                            } else {
+                                defs.push(load(t0, &d, a));
+                            }
+                        }
+                        7 | 8 => {
+                            let op = *g.t.choose(&[IntAdd, IntSub, IntAnd, IntXOr, IntMult]);
+                            let a = any(&mut g);
+                            let b = g.operand();
+                            defs.push(assign(t0, &d, ebin(op, evar(&a), b)));
+                        }
+                        9 => {
+                            let s = any(&mut g);
+                            defs.push(assign(t0, &d, evar(&s)));
+                        }
+                        _ => {
+                            let f = var(if g.t.flag() { "ZF" } else { "CF" }, 1);
+                            let c = g.cmp();
+                            defs.push(assign(t0, &f, c));
+                        }
+                    }
+                }
+                let jt = instr_tid(bb + 0x3f, 0);
+                let jmps = if bi + 1 == gn {
+                    let tv = tmp("$Ur", 8);
+                    defs.push(load(instr_tid(bb + 0x3e, 0), &tv, evar(&var("RSP", 8))));
+                    defs.push(assign(instr_tid(bb + 0x3e, 1), &var("RSP", 8), ebin(IntAdd, evar(&var("RSP", 8)), econst(8, 8))));
+                    vec![jmp(jt, Jmp::Return(evar(&tv)))]
+                } else if g.t.flag() {
+                    // forward only: no loops in the callee
+                    let t1 = blk_tid(gbase + 0x40 * (bi + 1 + g.t.below(gn - bi - 1)) as u64);
+                    let cond = if g.t.flag() { evar(&var("ZF", 1)) } else { g.cmp() };
+                    vec![jmp(jt, Jmp::CBranch { target: t1, condition: cond }), jmp(instr_tid(bb + 0x3f, 1), Jmp::Branch(blk_tid(bb + 0x40)))]
+                } else {
+                    vec![jmp(jt, Jmp::Branch(blk_tid(bb + 0x40)))]
+                };
+                gblocks.push(blk(blk_tid(bb), defs, jmps));
+            }
+            subs.push(sub(sub_tid(gbase), "g", gblocks));
+        }
+        let ncalls = 1 + g.t.below(3);
+        for _ in 0..ncalls {
+            let bi = g.t.below(nblocks - 1);
+            let bb = sbase + 0x40 * bi as u64;
+            let target = match g.t.below(if with_callee { 8 } else { 4 }) {
+                0 => e_malloc.clone(),
+                1 => e_rand.clone(),
+                2 => e_memfn.clone(),
+                3 => e_unk.clone(),
+                _ => sub_tid(gbase),
+            };
+            // argument set-up: pointers into the own stack frame, copies of other registers, constants
+            for (k, p) in ["RDI", "RSI"].iter().enumerate() {
+                let t0 = instr_tid(bb + 0x3a + k as u64, 0);
+                match g.t.below(6) {
+                    0 | 1 => {
+                        let base = var(if g.t.prob(60) { "RBP" } else { "RSP" }, 8);
+                        let off = *g.t.choose(&[0i128, 8, 16, 24, 32, -8, -16, 64]);
+                        blocks[bi].term.defs.push(assign(t0, &var(p, 8), ebin(IntAdd, evar(&base), econst(off, 8))));
+                        g.feat("call-with-pointer-to-own-stack");
+                    }
+                    2 => {
+                        let s = g.reg();
+                        blocks[bi].term.defs.push(assign(t0, &var(p, 8), evar(&s)));
+                    }
+                    3 => {
+                        let c = *g.t.choose(&[0x800i128, 0x1000, 0x2ff0, 16, 0]);
+                        blocks[bi].term.defs.push(assign(t0, &var(p, 8), econst(c, 8)));
+                    }
+                    _ => {}
+                }
+            }
+            // x86 CALL: push the return address
+            blocks[bi].term.defs.push(assign(instr_tid(bb + 0x3d, 0), &var("RSP", 8), ebin(IntSub, evar(&var("RSP", 8)), econst(8, 8))));
+            blocks[bi].term.defs.push(store(instr_tid(bb + 0x3d, 1), evar(&var("RSP", 8)), econst((bb + 0x40) as i128, 8)));
+            blocks[bi].term.jmps = vec![jmp(instr_tid(bb + 0x3f, 0), Jmp::Call { target, return_: Some(blk_tid(bb + 0x40)) })];
+        }
+    }
     let s = sub(sub_tid(sbase), "f", blocks);
-    let mut project = project(vec![s], vec![], vec![sub_tid(sbase)]);
+    subs.insert(0, s);
+    let mut project = project(subs, externs, vec![sub_tid(sbase)]);
     // a writeable global segment at low addresses just above the NULL range: absolute accesses into it are
     // valid (unknown content); every other absolute access is invalid for the analysis and aborts the concrete run
     let literal = g.t.prob(64);
@@ -420,26 +560,26 @@ pub fn decode(t: &mut Tape) -> Case {
     Case { literal, project, states, features: g.features }
 }
 
-/// Entry-value environment for abstract identifiers.
-struct Rho<'a> {
-    sub_tid: &'a Tid,
-    entry: &'a BTreeMap<String, u128>,
-    entry_mem: &'a State,
-    sp_name: &'a str,
+/// Entry-value environment for the abstract identifiers of one function activation.
+struct Rho {
+    sub_tid: Tid,
+    /// register values at function entry
+    entry: BTreeMap<String, u128>,
+    /// memory at function entry
+    entry_mem: State,
     lenient_empty: bool,
 }
 
-impl<'a> Rho<'a> {
+impl Rho {
     /// Concrete value an identifier stands for, if the harness can determine it.
     fn value(&self, id: &AbstractIdentifier) -> Option<(u128, usize)> {
-        if id.get_tid() != self.sub_tid || !id.get_path_hints().is_empty() {
+        if *id.get_tid() != self.sub_tid || !id.get_path_hints().is_empty() {
             return None;
         }
         match id.get_location() {
             AbstractLocation::Register(v) => self.entry.get(&v.name).map(|x| (*x, u64::from(v.size) as usize)),
             AbstractLocation::Pointer(v, AbstractMemoryLocation::Location { offset, size }) => {
                 let base = *self.entry.get(&v.name)?;
-                let _ = self.sp_name;
                 let addr = (base as u64).wrapping_add(*offset as u64);
                 let s = u64::from(*size) as usize;
                 Some((self.entry_mem.read_mem(addr, s), s))
@@ -491,14 +631,127 @@ fn represented(d: &DataDomain<IntervalDomain>, v: u128, w: usize, rho: &Rho) -> 
 
 struct Obs<'a, 'b> {
     pi: &'b cwe_checker_lib::analysis::pointer_inference::PointerInference<'a>,
+    project: &'b Project,
     nodes: &'b BTreeMap<Tid, petgraph::graph::NodeIndex>,
     regs: &'b [Variable],
-    rho: Rho<'b>,
+    /// activation records: frames[0] is the function under test, the last one the running function
+    frames: Vec<Rho>,
+    lenient_empty: bool,
+    seed: u64,
     failure: Option<(String, String)>,
     arrivals: u64,
     lenient: u64,
     exact: u64,
     visited: Vec<Tid>,
+    extern_calls: u64,
+    internal_calls: u64,
+    internal_returns: u64,
+    extern_writes: u64,
+    checks_after_call: u64,
+    after_call: bool,
+    /// an internal callee was entered with two pointer-like parameter values (or a parameter and the stack
+    /// pointer) pointing into the same memory area: the analysis' assumption that different parameter
+    /// identifiers denote different memory does not hold from then on
+    aliasing_frame: bool,
+}
+
+const HEAP_START: u64 = 0x6000_0000_0000;
+const HEAP_END: u64 = 0x6000_1000_0000;
+
+impl<'a, 'b> Obs<'a, 'b> {
+    fn writable(state: &State, addr: u64) -> bool {
+        let s = addr as i64;
+        if s > -1024 && s < 1024 {
+            return false;
+        }
+        let rs_ = match (&state.valid_ranges, &state.unpoisoned_ranges) {
+            (Some(r), _) => r,
+            (None, Some(r)) => r,
+            _ => return false,
+        };
+        rs_.iter().any(|(lo, hi)| addr >= *lo && addr.checked_add(8).map(|e| e <= *hi).unwrap_or(false))
+    }
+
+    /// One possible behaviour of an extern function that obeys the calling convention: pops the return
+    /// address, clobbers every register that is not callee-saved, writes to memory reachable from its
+    /// pointer parameters (one and two levels), returns a fresh pointer / NULL (malloc) or anything.
+    fn extern_call(&mut self, sym: &ExternSymbol, state: &mut State) {
+        use crate::tape::mix64;
+        self.extern_calls += 1;
+        let mut h = mix64(self.seed ^ self.extern_calls.wrapping_mul(0x9e37_79b9_7f4a_7c15) ^ 0xc13);
+        let mut next = || {
+            h = mix64(h.wrapping_add(0x2545_f491_4f6c_dd1d));
+            h
+        };
+        let rsp = state.get(&var("RSP", 8)).v as u64;
+        let param_regs: Vec<String> = if sym.parameters.is_empty() && sym.return_values.is_empty() {
+            PARAM_REGS.iter().map(|r| r.to_string()).collect()
+        } else {
+            sym.parameters
+                .iter()
+                .filter_map(|a| match a {
+                    Arg::Register { expr: Expression::Var(v), .. } => Some(v.name.clone()),
+                    _ => None,
+                })
+                .collect()
+        };
+        let ptrs: Vec<u64> = param_regs.iter().map(|r| state.get(&var(r, 8)).v as u64).collect();
+        // memory effects
+        if sym.name != "malloc" && sym.name != "rand" {
+            for p in ptrs {
+                if !Self::writable(state, p) {
+                    continue;
+                }
+                let inner = state.read_mem(p, 8) as u64;
+                let n = 1 + (next() % 3);
+                for k in 0..n {
+                    let a = p.wrapping_add(8 * k);
+                    if Self::writable(state, a) && next() % 4 != 0 {
+                        state.write_mem(a, 8, next() as u128);
+                        for i in 0..8 {
+                            state.poison_mem.remove(&a.wrapping_add(i));
+                        }
+                        self.extern_writes += 1;
+                    }
+                }
+                if Self::writable(state, inner) && next() % 2 == 0 {
+                    state.write_mem(inner, 8, next() as u128);
+                    self.extern_writes += 1;
+                }
+            }
+        }
+        // registers
+        for r in self.regs {
+            if CALLEE_SAVED.contains(&r.name.as_str()) || r.name == "RSP" {
+                continue;
+            }
+            let w = u64::from(r.size) as usize;
+            let v = if w == 1 { (next() & 1) as u128 } else { next() as u128 };
+            state.set(&r.name, v, w);
+            state.poison_vars.remove(&r.name);
+        }
+        let temps: Vec<String> = state.vars.keys().filter(|k| k.starts_with('$')).cloned().collect();
+        for t in temps {
+            state.vars.remove(&t);
+        }
+        let ret: u128 = match sym.name.as_str() {
+            "malloc" => {
+                if next() % 4 == 0 {
+                    0
+                } else {
+                    (HEAP_START + ((self.extern_calls % 15) << 24)) as u128
+                }
+            }
+            _ => match next() % 3 {
+                0 => (next() % 16) as u128,
+                _ => next() as u128,
+            },
+        };
+        if !sym.return_values.is_empty() {
+            state.set("RAX", ret, 8);
+        }
+        state.set("RSP", rsp.wrapping_add(8) as u128, 8);
+    }
 }
 
 impl<'a, 'b> Observer for Obs<'a, 'b> {
@@ -515,6 +768,7 @@ impl<'a, 'b> Observer for Obs<'a, 'b> {
             self.failure = Some(("unreachable-block-reached".into(), format!("block {} has no analysis state (considered unreachable) but the concrete run reached it", blk.tid)));
             return false;
         }
+        let rho = self.frames.last().expect("frame");
         for r in self.regs {
             if state.poison_vars.contains(&r.name) {
                 continue;
@@ -524,11 +778,12 @@ impl<'a, 'b> Observer for Obs<'a, 'b> {
                 Some(d) => d,
                 None => continue,
             };
-            let (ok, len) = represented(&d, v.v, v.w, &self.rho);
+            let (ok, len) = represented(&d, v.v, v.w, rho);
             if !ok {
+                let place = if self.frames.len() > 1 { "in a callee" } else if self.after_call { "after a call" } else { "before any call" };
                 self.failure = Some((
-                    "register-value-not-represented".into(),
-                    format!("at block {}: register {} has concrete value {:#x} which is not represented by the analysis value {}", blk.tid, r.name, v.v, d.to_json_compact()),
+                    "register-value-not-represented".to_string(),
+                    format!("({}) at block {} (function {}): register {} has concrete value {:#x} which is not represented by the analysis value {}", place, blk.tid, rho.sub_tid, r.name, v.v, d.to_json_compact()),
                 ));
                 return false;
             }
@@ -536,9 +791,69 @@ impl<'a, 'b> Observer for Obs<'a, 'b> {
                 self.lenient += 1;
             } else {
                 self.exact += 1;
+                if self.after_call {
+                    self.checks_after_call += 1;
+                }
             }
         }
         true
+    }
+
+    fn at_call(&mut self, _call: &Term<Jmp>, target: &Tid, state: &mut State) -> CallAction {
+        if let Some(sym) = self.project.program.term.extern_symbols.get(target) {
+            let sym = sym.clone();
+            self.extern_call(&sym, state);
+            self.after_call = true;
+            return CallAction::Handled;
+        }
+        let callee = match self.project.program.term.subs.get(target) {
+            Some(c) if self.frames.len() < 3 && !c.term.blocks.is_empty() => c,
+            _ => return CallAction::Stop,
+        };
+        self.internal_calls += 1;
+        let rsp = state.get(&var("RSP", 8)).v as u64;
+        let ret_addr = state.read_mem(rsp, 8);
+        let mut entry = BTreeMap::new();
+        for r in self.regs {
+            entry.insert(r.name.clone(), state.get(r).v);
+        }
+        {
+            let mut ptrs: Vec<u64> = PARAM_REGS.iter().map(|r| entry[*r] as u64).collect();
+            ptrs.push(rsp);
+            for i in 0..ptrs.len() {
+                for j in i + 1..ptrs.len() {
+                    if ptrs[i].abs_diff(ptrs[j]) < (1 << 20) {
+                        self.aliasing_frame = true;
+                    }
+                }
+            }
+        }
+        let mut entry_mem = State::new(state.mem_seed);
+        entry_mem.mem = state.mem.clone();
+        self.frames.push(Rho { sub_tid: target.clone(), entry, entry_mem, lenient_empty: self.lenient_empty });
+        // P-Code temporaries do not survive instructions
+        let temps: Vec<String> = state.vars.keys().filter(|k| k.starts_with('$')).cloned().collect();
+        for t in temps {
+            state.vars.remove(&t);
+        }
+        let regs = self.regs;
+        let run = run_sub(callee, state, regs, &Limits { max_events: 200, max_blocks: 20 }, &[], self);
+        self.frames.pop();
+        if self.failure.is_some() || run.stop != Stop::Finished {
+            return CallAction::Stop;
+        }
+        // the callee must have returned to the pushed return address with the return address popped
+        let proper = matches!(run.events.last(), Some(crate::irinterp::Event::Return { target: t, .. }) if *t == ret_addr) && state.get(&var("RSP", 8)).v as u64 == rsp.wrapping_add(8);
+        if !proper {
+            return CallAction::Stop;
+        }
+        let temps: Vec<String> = state.vars.keys().filter(|k| k.starts_with('$')).cloned().collect();
+        for t in temps {
+            state.vars.remove(&t);
+        }
+        self.internal_returns += 1;
+        self.after_call = true;
+        CallAction::Handled
     }
 }
 
@@ -553,7 +868,7 @@ pub fn check_case(case: &Case, ctx: &mut Ctx) -> CaseResult {
     for f in &case.features {
         ctx.label(&format!("feature:{}", f));
     }
-    let sub_tid = sub_tid(0x1000);
+    let sub_tid: Tid = sub_tid(0x1000);
     let result: Result<Result<(), (String, String, bool)>, crate::engine::Failure> = cut(|| {
         let graph = cwe_checker_lib::analysis::graph::get_program_cfg(&project.program);
         let binary: Vec<u8> = vec![];
@@ -582,13 +897,15 @@ pub fn check_case(case: &Case, ctx: &mut Ctx) -> CaseResult {
         };
         let regs: Vec<Variable> = project.register_set.iter().cloned().collect();
         let mut stats = (0u64, 0u64, 0u64, stateless, 0usize, false, false);
+        let calls = std::cell::Cell::new((0u64, 0u64, 0u64, 0u64, 0u64));
+        let frame_alias = std::cell::Cell::new(false);
         // one concrete run; returns (failure, arrivals, lenient, exact, visited blocks, looped, null-abort, blocks run)
         let run_state = |regvals: &Vec<(String, u128, usize)>, seed: u64| {
             let mut st = State::new(seed);
             st.null_guard = Some(1024);
             // valid memory: the global segment, the stack area around the entry stack pointer, and a page
             // around the entry value of each parameter register (pointer parameters)
-            let mut ranges: Vec<(u64, u64)> = vec![(GLOBAL_START, GLOBAL_END)];
+            let mut ranges: Vec<(u64, u64)> = vec![(GLOBAL_START, GLOBAL_END), (HEAP_START, HEAP_END)];
             for (n, v, _) in regvals {
                 let v = *v as u64;
                 if n == "RSP" {
@@ -610,13 +927,38 @@ pub fn check_case(case: &Case, ctx: &mut Ctx) -> CaseResult {
                 entry.insert(n.clone(), *v);
             }
             let entry_mem = State::new(seed);
-            let rho = Rho { sub_tid: &sub_tid, entry: &entry, entry_mem: &entry_mem, sp_name: "RSP", lenient_empty: case.literal };
-            let mut obs = Obs { pi: &pi, nodes: &nodes, regs: &regs, rho, failure: None, arrivals: 0, lenient: 0, exact: 0, visited: vec![] };
+            let rho = Rho { sub_tid: sub_tid.clone(), entry, entry_mem, lenient_empty: case.literal };
+            let mut obs = Obs {
+                pi: &pi,
+                project: &project,
+                nodes: &nodes,
+                regs: &regs,
+                frames: vec![rho],
+                lenient_empty: case.literal,
+                seed,
+                failure: None,
+                arrivals: 0,
+                lenient: 0,
+                exact: 0,
+                visited: vec![],
+                extern_calls: 0,
+                internal_calls: 0,
+                internal_returns: 0,
+                extern_writes: 0,
+                checks_after_call: 0,
+                after_call: false,
+                aliasing_frame: false,
+            };
             let run = run_sub(s, &mut st, &regs, &Limits { max_events: 300, max_blocks: 80 }, &[], &mut obs);
+            calls.set({
+                let c = calls.get();
+                (c.0 + obs.extern_calls, c.1 + obs.internal_calls, c.2 + obs.internal_returns, c.3 + obs.extern_writes, c.4 + obs.checks_after_call)
+            });
             let looped = run.blocks.len() > obs.visited.len();
             let failure = obs.failure.take().map(|(sig, detail)| {
                 (sig, format!("{}\ninitial registers: {:x?}\nblocks run: {:?}", detail, regvals.iter().map(|(n, v, _)| (n.as_str(), *v)).collect::<Vec<_>>(), run.blocks.iter().take(30).collect::<Vec<_>>()))
             });
+            frame_alias.set(obs.aliasing_frame);
             (failure, obs.arrivals, obs.lenient, obs.exact, obs.visited.len(), looped, run.stop == Stop::NullAccess)
         };
         // separated states first, aliasing states last
@@ -633,6 +975,12 @@ pub fn check_case(case: &Case, ctx: &mut Ctx) -> CaseResult {
                 stats.6 = true;
             }
             if let Some((sig, detail)) = failure {
+                if frame_alias.get() {
+                    // the callee's parameters aliased each other at run time; this cannot be undone by changing
+                    // the initial state (the caller computes the pointers), so the failure is attributed to the
+                    // same documented assumption without a de-aliasing re-run
+                    return Err((sig, format!("(an internal callee was entered with parameter pointers into the same memory area)\n{}", detail), true));
+                }
                 if *aliasing {
                     // Does the failure disappear when the aliasing is removed (parameter registers replaced by
                     // pairwise distant pointer-like values, everything else unchanged)? Only then it is attributed
@@ -650,7 +998,8 @@ pub fn check_case(case: &Case, ctx: &mut Ctx) -> CaseResult {
                 return Err((sig, detail, *aliasing));
             }
         }
-        Err(("stats".to_string(), format!("{} {} {} {} {} {} {}", stats.0, stats.1, stats.2, stats.3, stats.4, stats.5, stats.6), false))
+        let c = calls.get();
+        Err(("stats".to_string(), format!("{} {} {} {} {} {} {} {} {} {} {} {}", stats.0, stats.1, stats.2, stats.3, stats.4, stats.5, stats.6, c.0, c.1, c.2, c.3, c.4), false))
     });
     match result {
         Err(f) => ctx.report(format!("C13:analysis:{}", f.signature), format!("{}\n{}", f.detail, project.program.term)),
@@ -679,6 +1028,20 @@ pub fn check_case(case: &Case, ctx: &mut Ctx) -> CaseResult {
                 if v[6] == "true" {
                     ctx.label("run-aborted-at-null-access");
                 }
+                let n = |i: usize| -> u64 { v[i].parse().unwrap() };
+                if n(7) > 0 {
+                    ctx.label("extern-call-executed");
+                }
+                if n(8) > 0 {
+                    ctx.label("internal-call-executed");
+                }
+                if n(9) > 0 {
+                    ctx.label("internal-callee-returned-properly");
+                }
+                if n(10) > 0 {
+                    ctx.label("extern-function-wrote-through-pointer-parameter");
+                }
+                ctx.label_n("register-checks:decided-by-interval-after-a-call", n(11));
                 if looped && visited >= 3 {
                     ctx.label("nontrivial");
                     ctx.nontrivial(fnv(format!("{}", project.program.term).as_bytes()));
